@@ -147,7 +147,16 @@ async fn one_config(ctx: &mut Ctx, rng: &mut SRng, ep: &Epoch, proto: Proto, tri
         let slice = *[0u64, 1, 2, 7, 1023, rng.random_range(0..1024)].choose(rng).unwrap();
         let idx = rng.random_range(0..64u64);
         shreds.push((slot, slice, idx));
+        // the same slot and in-slice shred index in another slice (and the same position within the slot
+        // reached through another slice/index pair): keys an over-coarse cache would confuse
+        if rng.random_bool(0.4) {
+            let other = (slice + rng.random_range(1..1024)) % 1024;
+            shreds.push((slot, other, idx));
+        }
     }
+    let triples = shreds.len();
+    // what every primary instance did per triple, for the duplicates that see the triples in another order
+    let mut primary_fw: BTreeMap<(u64, u64, u64), Vec<(usize, Vec<usize>)>> = BTreeMap::new();
     for &(slot, slice, idx) in &shreds {
         let s = mk_shred(slot, slice, idx);
         let leader = leader_of(ep, slot);
@@ -165,17 +174,10 @@ async fn one_config(ctx: &mut Ctx, rng: &mut SRng, ep: &Epoch, proto: Proto, tri
                 let out: Vec<usize> = std::mem::take(&mut *log.lock().unwrap()).iter().map(|d| d.to.1).collect();
                 fw.push((v, out));
             }
-            // independently constructed duplicates must act identically
-            let mut dup_fw: Vec<(usize, Vec<usize>)> = Vec::new();
-            for (v, d) in &dups {
-                d.forward(&s).await;
-                let out: Vec<usize> = std::mem::take(&mut *log.lock().unwrap()).iter().map(|d| d.to.1).collect();
-                dup_fw.push((*v, out));
-            }
-            (sent_by_leader, fw, dup_fw)
+            (sent_by_leader, fw)
         })
         .await;
-        let (sent_by_leader, fw, dup_fw) = match r {
+        let (sent_by_leader, fw) = match r {
             Ok(x) => x,
             Err(p) => {
                 ctx.violation(format!("C16 {} routing {}", proto.class(), p.sig()), p.msg, wit(json!({"slot": slot, "slice": slice, "shred": idx})));
@@ -189,20 +191,7 @@ async fn one_config(ctx: &mut Ctx, rng: &mut SRng, ep: &Epoch, proto: Proto, tri
             continue;
         }
         let first_hop = sent_by_leader[0].to.1;
-        for (v, out) in &dup_fw {
-            let orig = fw.iter().find(|(x, _)| x == v).map(|(_, o)| o.clone()).unwrap_or_default();
-            let mut a = orig.clone();
-            let mut b = out.clone();
-            a.sort_unstable();
-            b.sort_unstable();
-            if a != b {
-                ctx.violation(
-                    format!("C16 {} two independently constructed instances of the same node route differently", proto.class()),
-                    format!("validator {v}: {a:?} vs {b:?}"),
-                    w(json!({"validator": v, "first": a, "second": b})),
-                );
-            }
-        }
+        primary_fw.insert((slot, slice, idx), fw.clone());
         match proto {
             Proto::Rotor | Proto::RotorFa1 => {
                 let forwarders: Vec<usize> = fw.iter().filter(|(_, o)| !o.is_empty()).map(|(v, _)| *v).collect();
@@ -246,6 +235,39 @@ async fn one_config(ctx: &mut Ctx, rng: &mut SRng, ep: &Epoch, proto: Proto, tri
                     }
                 }
                 routes.entry((slot, slice, idx)).or_default().push((leader, first_hop));
+            }
+        }
+    }
+
+    // --- independently constructed duplicates, fed the same shreds in a different order, must act identically
+    // (routing is a function of the shred and the epoch, not of what an instance happened to see before)
+    {
+        let mut order: Vec<(u64, u64, u64)> = shreds.clone();
+        order.reverse();
+        if rng.random_bool(0.5) {
+            order.shuffle(rng);
+        }
+        for (slot, slice, idx) in order {
+            let s = mk_shred(slot, slice, idx);
+            let Some(fw) = primary_fw.get(&(slot, slice, idx)) else { continue };
+            for (v, d) in &dups {
+                log.lock().unwrap().clear();
+                if let Err(p) = crate::evidence::guarded_async(d.forward(&s)).await {
+                    ctx.violation(format!("C16 {} routing {}", proto.class(), p.sig()), p.msg, wit(json!({"slot": slot, "slice": slice, "shred": idx})));
+                    return;
+                }
+                let mut b: Vec<usize> = std::mem::take(&mut *log.lock().unwrap()).iter().map(|d| d.to.1).collect();
+                let mut a = fw.iter().find(|(x, _)| x == v).map(|(_, o)| o.clone()).unwrap_or_default();
+                a.sort_unstable();
+                b.sort_unstable();
+                ctx.eval();
+                if a != b {
+                    ctx.violation(
+                        format!("C16 {} two independently constructed instances of the same node route differently", proto.class()),
+                        format!("validator {v}: {a:?} vs {b:?} (second instance saw the shreds in another order)"),
+                        wit(json!({"slot": slot, "slice": slice, "shred": idx, "validator": v, "first": a, "second": b})),
+                    );
+                }
             }
         }
     }
